@@ -408,9 +408,9 @@ fn analyse_fresh(rep: &mut Report, fresh: &Fresh, other_process: Option<&HashSet
 
 fn run_workload(a: &Args, fresh: &std::sync::Mutex<Fresh>, rep: &mut Report, small: bool) {
     let seed = a.seed;
-    let n = if small { 16 } else { a.n(48, 1600) };
+    let n = if small { 16 } else { a.n(160, 1600) };
     rep.merge(parallel(n, a.threads, |i, rep| sessions_case(seed, i as u64, rep, fresh)));
-    let nu = if small { 7 } else { a.n(14, 140) };
+    let nu = if small { 7 } else { a.n(42, 210) };
     let per = if small { 200 } else if a.thorough { 10_000 } else { 1500 };
     rep.merge(parallel(nu, a.threads, |i, rep| udp_sessions(seed, i as u64, per, rep, fresh)));
 }
